@@ -253,7 +253,7 @@ func zzC01_bmff_ctbo() {
 // HEIF route: meta{iinf{infe Exif id 1}, iloc{item 1: offset, length}} then mdat: the Exif item's offset and length are
 // arbitrary (classes around the mdat payload), the 48 payload bytes are arbitrary (part 0) or start with a 4-byte prefix
 // + "Exif\0\0" + TIFF header (part 1).
-func zzC01_bmff_mdat_N() int { return 26 }
+func zzC01_bmff_mdat_N() int { return 28 }
 func zzC01_bmff_mdat() {
 	const meta = 24
 	const iinf = meta + 12
@@ -275,7 +275,7 @@ func zzC01_bmff_mdat() {
 	z.b[iloc+17] = 1 // item id 1
 	z.b[iloc+21] = 1 // one extent
 	// the item offset: one class per partition (before, at and inside the mdat payload, at and past the end, huge)
-	off := []uint32{0, 1, mdat, mdat + 8, mdat + 8 + 4, mdat + 8 + 16, mdat + 8 + 20, mdat + 8 + 40, N - 1, N, N + 16, 0x7fffffff, 0xffffffff}[zzPart()/2]
+	off := []uint32{0, 1, mdat, mdat + 8, mdat + 8 + 4, mdat + 8 + 16, mdat + 8 + 20, mdat + 8 + 40, N - 1, N, N + 16, 0x7fffffff, 0xffffffff, mdat + 16}[zzPart()/2]
 	z.put32(iloc+22, off)
 	ln := zzU32("len")
 	zzAssume(ln <= 2 || ln == 8 || ln == 15 || ln == 16 || ln == 17 || ln == 23 || ln == 24 || ln == 25 || ln == 26 || ln == 30 || ln == 48 || ln == 49 || ln == 0x7fffffff || ln == 0xffffffff)
@@ -351,4 +351,63 @@ func zzC01_bmff_pay() {
 		_ = zzBmffRun(z.b, 2, mode, false)
 	}
 	zzReached("end")
+}
+
+// boxes that end exactly at the end of the 4096-byte read buffer (a free box in front pads the file): a look-ahead of
+// exactly the box's remaining length has no spare capacity there. One child of meta (parts 0..4; iref and iprp payloads
+// do not finish) or of the CR3 uuid (parts 5..7) with an arbitrary size 8..40 and arbitrary payload, more boxes after it.
+func zzC01_bmff_bufend_N() int { return 8 }
+func zzC01_bmff_bufend() {
+	p := zzPart()
+	s := int(zzConc(uint64(zzSizeIn("s", 8, 40)), 33))
+	const N = 4096 + 24
+	z := &zzBuf{b: make([]byte, N)}
+	var child int
+	if p < 5 {
+		typ := []string{"hdlr", "pitm", "iinf", "iloc", "idat"}[p]
+		z.str(0, "\x00\x00\x00\x18ftypavif\x00\x00\x00\x00avifmif1")
+		meta := 4096 - s - 12
+		z.box(24, uint32(meta-24), "free")
+		z.box(meta, uint32(12+s), "meta")
+		child = meta + 12
+		z.box(child, uint32(s), typ)
+		if typ == "iloc" && s >= 16 { // version 0, 4-byte offsets and lengths; extent counts at most 2
+			pay := z.sym(child+8, "p", s-8)
+			zzAssume(pay[0] == 0 && pay[4] == 0x44 && pay[5] == 0)
+			pay[0], pay[4], pay[5] = 0, 0x44, 0
+			for _, i := range []int{12, 18} {
+				if i+1 < len(pay) {
+					zzAssume(pay[i] == 0 && pay[i+1] <= 2)
+					pay[i] = 0
+				}
+			}
+		} else if s > 8 {
+			z.sym(child+8, "p", s-8)
+		}
+	} else {
+		typ := []string{"CNCV", "CTBO", "CMT1"}[p-5]
+		z.str(0, zzFtyp)
+		moov := 4096 - s - 32
+		z.box(24, uint32(moov-24), "free")
+		z.box(moov, uint32(32+s), "moov")
+		z.box(moov+8, uint32(24+s), "uuid")
+		z.str(moov+16, zzUUIDs[0])
+		child = moov + 32
+		z.box(child, uint32(s), typ)
+		if s > 8 {
+			z.sym(child+8, "p", s-8)
+		}
+	}
+	z.box(4096, 16, "free")
+	z.box(4096+16, 8, "free")
+	for mode := 0; mode < 2; mode++ {
+		_ = zzBmffRun(z.b, 3, mode, false)
+	}
+	zzReached("end")
+}
+
+func zzSizeIn(name string, lo, hi uint32) uint32 {
+	s := zzU32(name)
+	zzAssume(s >= lo && s <= hi)
+	return s
 }
